@@ -8,7 +8,7 @@ from . import _sched as S
 from .C02 import WITNESSES
 
 PROP = "C04"
-GEN_REGIONS: List[str] = ["Sched", "Utils", "SchedGlue"]
+GEN_REGIONS: List[str] = ["Sched", "Utils", "SchedGlue", "ConfigGlue"]
 THEOREMS = {
     "SpecKitV.Lemmas.SchedLtf": ["ltfStep_mono", "ltfStep_logspaced", "ltfStep_K"],
     "SpecKitV.Lemmas.Starts": ["nsegRaw_eq", "capK_le", "startsEven_safe", "startsAccum_safe", "overlapMean_eq_closed", "overlapMean_accum_eq_closed"],
@@ -23,6 +23,8 @@ THEOREMS = {
     "SpecKitV.Props.PostGen": ["gen_vec_post_eq_model", "gen_new_post_eq_vec_post", "gen_post_starts_safe"],
     "SpecKitV.Props.Utils": ["gen_round_half_up_eq_model", "gen_round_half_up_eq_floor"],
     "SpecKitV.Props.SchedGlueGen": ["SchedGlue.gen_require_args_eq", "SchedGlue.gen_ltf_post_eq", "SchedGlue.gen_vec_post_glue_eq", "SchedGlue.gen_new_post_glue_eq", "SchedGlue.gen_ltf_plan_eq_model", "SchedGlue.gen_vec_plan_eq_model", "SchedGlue.gen_new_plan_eq_model", "SchedGlue.gen_lpsd_forward", "SchedGlue.gen_lpsd_plan_eq_ltf", "SchedGlue.gen_lpsd_plan_eq_model", "SchedGlue.gen_plan_missing_key", "SchedGlue.gen_lpsd_missing_key", "SchedGlue.planDict_keys", "SchedGlue.gen_plan_wiring", "SchedGlue.planDict_overlap", "SchedGlue.gen_ltf_plan_props", "SchedGlue.gen_lpsd_plan_props", "SchedGlue.gen_new_plan_props", "SchedGlue.gen_vec_plan_props", "SchedGlue.gen_plan_overlap_key"],
+    "SpecKitV.Props.ConfigGlueGen": ["ConfigGlue.gen_window_eq_spec", "ConfigGlue.gen_window_explicit_olap", "ConfigGlue.gen_window_explicit_olap_ok",
+                                     "ConfigGlue.gen_sched_eq_spec", "ConfigGlue.gen_sched_new_ltf", "ConfigGlue.gen_sched_callable", "ConfigGlue.gen_cg_plan_eq_model"],
 }
 CONTRACTS: List[str] = [
     'Python dict with string keys = association list, most recent binding first (Py.Dict in Np/SchedGlue.lean): d[k]=v (last write wins), d[k], k in d, dict(d) copies, d.update(e), dict(k=v,...)',
@@ -70,7 +72,7 @@ def correspondence(ctx) -> C.Part:
     return P
 
 
-def check_cfg(P: C.Part, cfg, scheds=S.SCHEDS, count: bool = True) -> None:
+def check_cfg(P: C.Part, cfg, scheds=S.SCHEDS, count: bool = True, analyzer: bool = False) -> None:
     for sched in scheds:
         P.cases += 1
         P.hit(sched)
@@ -81,6 +83,23 @@ def check_cfg(P: C.Part, cfg, scheds=S.SCHEDS, count: bool = True) -> None:
             P.violations.append(S.viol(PROP, sched, cfg, "scheduler-raises", f"scheduler raised {ex!r}"))
             continue
         P.violations.extend(S.pred_C04(sched, cfg, plan))
+        if analyzer:
+            # the same predicate on the plan the ANALYZER builds when the overlap is requested explicitly: "averaging honours the overlap"
+            # is about the overlap the user asked for, so the path request -> resolved overlap -> scheduler is part of the claim
+            # (wave-5 miss C04e: an explicit olap=0 silently replaced by the window's default)
+            P.cases += 1
+            P.hit("through-analyzer")
+            try:
+                ap = S.analyzer_norm_plan(sched, cfg, win=("hann", "kaiser")[len(P.nontrivial) % 2])
+            except BaseException as ex:  # noqa
+                P.violations.append(S.viol(PROP, sched, cfg, "analyzer-raises", f"SpectrumAnalyzer.plan() raised {ex!r} for an admissible configuration",
+                                           extra={"entry": "analyzer"}))
+                continue
+            for v in S.pred_C04(sched, cfg, ap):
+                v.signature["entry"] = "analyzer"
+                v.what = "through SpectrumAnalyzer.plan(): " + v.what
+                v.replay["entry"] = "analyzer"
+                P.violations.append(v)
     if count:
         P.cases += 1
         try:
@@ -93,6 +112,11 @@ def oracle(ctx, intensive: bool = False, hints=()) -> C.Part:
     P = C.Part()
     for w in WITNESSES + [D10]:
         check_cfg(P, w)
+    # explicit overlaps at the ends of the admissible range, through the analyzer (corpus: wave-5 change C04e)
+    for w in ({"N": 4096, "fs": 1.0, "olap": 0.0, "bmin": 1.0, "Lmin": 1, "Jdes": 30, "Kdes": 10},
+              {"N": 1000, "fs": 2.0, "olap": 0.0, "bmin": 1.5, "Lmin": 4, "Jdes": 12, "Kdes": 4},
+              {"N": 3000, "fs": 10.0, "olap": 0.999, "bmin": 1.0, "Lmin": 1, "Jdes": 20, "Kdes": 50}):
+        check_cfg(P, w, count=False, analyzer=True)
     for h in hints:
         if isinstance(h, dict) and "cfg" in h:
             check_cfg(P, h["cfg"])
@@ -101,7 +125,7 @@ def oracle(ctx, intensive: bool = False, hints=()) -> C.Part:
         if ctx.time_left() < 40 or len([v for v in P.violations if v.signature.get("subclaim") != "count-vs-iterative"]) >= 8:
             break
         cfg = S.gen_cfg(ctx.rng, ctx.thorough, small=(i % 4 == 0))
-        check_cfg(P, cfg)
+        check_cfg(P, cfg, analyzer=(i % 3 == 1))
         if i < 4:
             P.sample({"op": "oracle", "cfg": cfg})
     # forced target count (binary search over Jdes in [100, 1e6]): exactly the target or an error
@@ -146,5 +170,5 @@ def replay(ctx, data) -> C.Part:
             P.violations.extend(S.pred_C04_force(r["cfg"], r["scheduler"]))
             P.cases += 1
         else:
-            check_cfg(P, r["cfg"], scheds=[r["scheduler"]], count=(r["subclaim"] == "count-vs-iterative"))
+            check_cfg(P, r["cfg"], scheds=[r["scheduler"]], count=(r["subclaim"] == "count-vs-iterative"), analyzer=(r.get("entry") == "analyzer"))
     return P
